@@ -370,11 +370,11 @@ namespace vf
     // ------------------------------------------------------------------------------------------------------------
     // generator (by construction)
     // ------------------------------------------------------------------------------------------------------------
-    static const char* patcls_names[] = { "random", "diagonal", "tridiag", "banded", "full", "lower", "upper", "symmetric", "arrow", "rev-arrow" };
+    static const char* patcls_names[] = { "random", "diagonal", "tridiag", "banded", "full", "lower", "upper", "symmetric", "arrow", "rev-arrow", "ring" };
 
     inline void gen_pattern(Tape& t, Case& cs, int maxn)
     {
-      int cls = t.pick({30, 5, 10, 10, 8, 7, 7, 8, 8, 7});
+      int cls = t.pick({30, 5, 10, 10, 8, 7, 7, 8, 8, 7, 8});
       cs.patcls = patcls_names[cls];
       cs.n = t.sized(1, maxn); const int n = cs.n; cs.N = n * cs.B;
       std::vector<std::vector<char>> on(n, std::vector<char>(n, 0));
@@ -390,6 +390,7 @@ namespace vf
       case 7: { unsigned num = (unsigned)t.range(1, 7); for(int i = 0; i < n; ++i) for(int j = 0; j < i; ++j) if(t.flag(num, 10)) { on[i][j] = 1; on[j][i] = 1; } break; }
       case 8: for(int i = 1; i < n; ++i) { on[0][i] = 1; on[i][0] = 1; } break;           // complete fill at level 1.. (arrow pointing up-left)
       case 9: for(int i = 0; i + 1 < n; ++i) { on[n - 1][i] = 1; on[i][n - 1] = 1; } break; // no fill at all
+      case 10: for(int i = 0; i < n; ++i) { on[i][(i + 1) % n] = 1; on[(i + 1) % n][i] = 1; } break;   // periodic tridiagonal: fill levels 1..n-3 appear one after the other
       }
       cs.col.assign(n, {}); cs.rowptr.assign(n + 1, 0);
       for(int i = 0; i < n; ++i) { on[i][i] = 1; for(int j = 0; j < n; ++j) if(on[i][j]) cs.col[i].push_back(j); cs.rowptr[i + 1] = cs.rowptr[i] + (int)cs.col[i].size(); }
@@ -541,7 +542,16 @@ namespace vf
           cs.omega = oc == 0 ? 1.0 : oc == 1 ? 0.5 : oc == 2 ? 1.5 : double(kk) / 64.0;
           if(cs.kind == K_SCALE && t.flag(1, 3)) cs.omega = double(t.range(1, 64)) / 8.0;
           if(B > 1 && cs.kind == K_SSOR && c.excl("c08-ssor-bcsr-scaling")) cs.omega = 1.0;
-          int pc = t.pick({3, 3, 2}); cs.p = pc == 0 ? 0 : pc == 1 ? t.range(1, std::max(1, n - 1)) : n;
+          // fill levels relative to the pattern: lmax = smallest level at which the factorisation is complete
+          int lmax = 0;
+          {
+            const int BIGL = 1 << 28; std::vector<int> lev((size_t)(n * n), BIGL);
+            for(int i = 0; i < n; ++i) for(int j : cs.col[i]) lev[(size_t)(i * n + j)] = 0;
+            for(int i = 1; i < n; ++i) for(int k = 0; k < i; ++k) { if(lev[(size_t)(i * n + k)] >= BIGL) continue; for(int j = k + 1; j < n; ++j) { if(lev[(size_t)(k * n + j)] >= BIGL) continue; int l = lev[(size_t)(i * n + k)] + lev[(size_t)(k * n + j)] + 1; if(l < lev[(size_t)(i * n + j)]) lev[(size_t)(i * n + j)] = l; } }
+            for(int x : lev) if(x < BIGL) lmax = std::max(lmax, x);
+          }
+          int pc = t.pick({3, 3, 2, 1});   // 0 / strictly between 0 and complete (if any) / exactly complete / n
+          cs.p = pc == 0 ? 0 : pc == 1 ? t.range(1, std::max(1, lmax - 1)) : pc == 2 ? lmax : n;
           cs.m = t.range(0, 6);
         }
         cs.unit = t.flag(1, 3);
